@@ -128,7 +128,10 @@ def run(ctx):
     # ---- header map operations
     hnames = ["Subject", "subject", "SUBJECT", "SubJect", "X-A", "x-a", "X-a", "To", "tO", "Comments", "COMMENTS", "Keywords", "keywords", "Received", "Resent-From", "Message-ID", "Message-Id",
               # names of which one is the beginning of another are different names
-              "Topic", "T", "X-A-B", "x-a-", "Subject-Prefix", "Sub", "Message-ID-2", "Comment"]
+              "Topic", "T", "X-A-B", "x-a-", "Subject-Prefix", "Sub", "Message-ID-2", "Comment",
+              # names that differ in a character which is no letter are different names, also where the two characters differ in the
+              # bit that separates the letter cases ('^' / '~', '[' / '{', '@' / '`', '\\' / '|', ']' / '}') or look alike ('-' / '_')
+              "X-Tag^", "X-Tag~", "x-tag~", "X[a]", "X{a}", "X{A}", "X@b", "X`b", "X\\c", "X|c", "X-a_b", "X-a-b", "X_A"]
     ol = []
     for _ in range(400 if ctx.tier == "quick" else 8000):
         ops = []
